@@ -29,6 +29,13 @@ def run(check: Check, repo: Repo, tier: str) -> None:
     S.wrapper_pairing(check, repo, [('utilities.type_comparators', 'is_equal_type'), ('utilities.type_comparators', 'is_type_sub_type_of')])
     S.schema_errors_first(check, repo)
     S.validation_cache(check, repo)
+    S.reserved_names(check, repo)
+    from rules import coercion_rules as K
+    from rules import total_rules as T
+    from sa.raises import MayRaise
+
+    K.list_value_predicate(check, repo)
+    T.schema_validation_total(check, repo, MayRaise(repo))
     from rules import generic_rules as G
     from rules import type_witness as TW
     tmods = repo.package_modules("type") + [repo.mod("utilities.type_comparators"), repo.mod("graphql")]
